@@ -14,5 +14,7 @@ func init() {
 	alias("C10", "C10.8", "C09.8", "elastic ReadFrom lands in ring.Buffer.ReadFrom while the ring has room")
 	alias("C10", "C10.10", "C11.8", "Peek(n) across ring and list cuts the last segment through linkedlist.PeekWithBytes")
 	alias("C02", "C02.12", "C03.11", "asynchronous writes of one goroutine keep their issue order only if every one of them is submitted with HighPriority")
+	alias("C12", "C12.9", "C17.6", "what release() pools must have been allocated for this connection")
+	alias("C12", "C12.10", "C17.7", "the listener's address is shared: its zone must never reach the pool")
 	alias("C10", "C10.6", "C09.6", "the ring half moves data with split copies")
 }
